@@ -681,7 +681,7 @@ def chain(mcmc_kernel: MCMCKernel):
             # Create multiple initial traces by repeating the single trace
             # This creates independent starting points
             initial_traces = jax.tree_util.tree_map(
-                lambda x: jnp.repeat(x[None, ...], n_chains.value, axis=0),
+                lambda x: jnp.repeat(jnp.asarray(x)[None, ...], n_chains.value, axis=0),
                 initial_trace,
             )
 
